@@ -88,7 +88,7 @@ def _classify_ret(t):
     return 'Other'
 
 
-def exit_classes_from(b, T, start):
+def exit_classes_from(b, T, start, avoid=()):
     from ..paths import Explorer, Rule
 
     class R(Rule):
@@ -103,6 +103,8 @@ def exit_classes_from(b, T, start):
             return state
 
         def on_term(self, b_, bi, t, state):
+            if bi in avoid:
+                return []           # do not walk on through these blocks (e.g. the loop condition: one iteration only)
             if t['k'] == 'call' and not t['dest']['p'] and t['dest']['l'] == 0:
                 return 'Err' if 'q' in t['callee'] and callee_q(t).endswith('from_residual') else 'Other'
             return state
@@ -209,9 +211,36 @@ def run(facts, cg):
             ok = any('UnexpectedEof' in show(simplify(T.of_rvalue(b, st['rv'], 0)))
                      for bi in b.live for st in b.blocks[bi]['stmts'] if st['k'] == 'assign') or \
                 any(any(a['k'] == 'const' and 'UnexpectedEof' in str(a.get('s')) for a in t['args']) for bi, t in b.calls())
-            instances.append({'rule': 'R-EARLYEND', 'function': b.q, 'early_end_is_error': ok})
+            inst_io = {'rule': 'R-EARLYEND', 'function': b.q, 'early_end_is_error': ok}
+            instances.append(inst_io)
             if not ok:
                 finding('R-EARLYEND', b.q, 'io-eof', 'a read of zero bytes before the chunk is complete is not turned into UnexpectedEof')
+            # path form for the chunk stream: while chunks remain (inside one turn of the loop over the chunk list) there is no way
+            # out that ends the stream - only the loop condition itself ends it
+            if b.raw['kind'] != 'Closure' or not b.raw.get('coroutine'):
+                for sbi in b.live:
+                    sw = b.blocks[sbi]['term']
+                    if sw['k'] != 'switch':
+                        continue
+                    cterm = simplify(T.of_operand(b, sw['op']))
+                    if not (isinstance(cterm, tuple) and cterm[0] == 'binop' and cterm[1] in ('Lt', 'Le', 'Gt', 'Ge', 'Ne', 'Eq')):
+                        continue
+                    # the loop condition: a counter field of the reader against the length of its list of requested chunks
+                    io_roles = facts.fields_by_role('bitar::archive_reader::io_reader::IoChunkReader')
+                    lens = [n_ for n_ in walk(cterm) if n_[0] == 'call' and n_[1].split('::')[-1] == 'len' and
+                            any(has_field(n_, f_) for f_ in (io_roles.get('alloc::vec::Vec') or []))]
+                    cnts = [x for x in (cterm[2], cterm[3]) if isinstance(x, tuple) and x[0] == 'field' and x[2] in (io_roles.get('usize') or [])]
+                    if not (lens and cnts):
+                        continue
+                    # the edge on which chunks remain: the one from which the read is reachable
+                    reads_b = {rbi for rbi, rt in b.calls() if 'q' in rt['callee'] and 'AsyncRead' in rt['callee']['q']}
+                    for tgt in set(sw['targets']) | {sw['otherwise']}:
+                        if _reach_blocks(b, tgt) & reads_b and sbi in _reach_blocks(b, tgt):
+                            cls = exit_classes_from(b, T, tgt, avoid={sbi})
+                            inst_io['exits_while_chunks_remain'] = sorted(cls)
+                            if 'End' in cls:
+                                finding('R-EARLYEND', b.q, 'io-chunks-end-with-chunks-left', 'the local chunk reader can end its stream (Ready(None)) while requested '
+                                        'chunks remain: an archive cut at a chunk boundary is taken for complete')
         if b.q.endswith(' as futures_core::stream::Stream>::poll_next') and b.id.startswith('bitar::archive::'):
             self_ty = b.q[1:b.q.index(' as ')]
             roles = facts.fields_by_role(self_ty)
@@ -333,6 +362,26 @@ def run(facts, cg):
             finding('R-COPYARM', b.q, 'dest-role', 'a moved chunk is not written to the destinations of its own reorder operation (%s)' % wr)
     if n_exec < 1:
         finding('R-COPYARM', '-', 'floor', 'the executor of the reorder operations was not found (cannot decide)')
+    # the seed feed: what is written is written at the offsets of the very location that was taken out of the index for that hash
+    n_feed = 0
+    for b in facts.bodies.values():
+        r = per_body.get(b.id)
+        if r is None or not r.writes or any('q' in t['callee'] and callee_q(t).endswith('ChunkIndex::reorder_ops') for _, t in b.calls()):
+            continue
+        if not any('q' in t['callee'] and callee_q(t) == 'bitar::chunk_index::ChunkIndex::remove' for _, t in b.calls()):
+            continue
+        n_feed += 1
+        bad = []
+        for (loc, st) in r.writes:
+            shown = st[1] if isinstance(st, tuple) else ''
+            if 'ChunkIndex::remove' not in shown and 'remove(' not in shown:
+                bad.append((loc, shown[:80]))
+        instances.append({'rule': 'R-COPYARM(feed)', 'function': b.q, 'write_seeks_from_removed_location': not bad})
+        if bad:
+            finding('R-COPYARM', b.q, 'feed-offsets', 'a fed chunk is written at offsets that do not come from the location removed from the clone index for its hash (%s): '
+                    'lookup and removal can disagree (different key normalisation) and the chunk is then lost' % bad[:2])
+    if n_feed < 1:
+        finding('R-COPYARM', '-', 'floor-feed', 'the seed feed (remove from the index, then write) was not found (cannot decide)')
 
     # ---------------------------------------------------------------- R-HASHRANGE (C04): the header checksum covers everything before it
     for b in facts.bodies.values():
